@@ -47,14 +47,14 @@ def run(ctx):
     base = {"combo": ["cms", "hh", "hll"], "cfg": cfg, "universe": [list(k) for k in universe], "delay": 1.0,
             "items": pc.items_to_json(real_items)}
     real_ns = [2] if quick else [2, 1, 3, 5]
-    RR = pc.RealRuns(ctx, width=2)
+    RR = pc.RealRuns(ctx, width=3)
     RR.add("f2", dict(base, mode="f2", n_workers=2), 420)
     for n in real_ns:
         RR.add(f"real{n}", dict(base, mode="c08", n_workers=n), 600)
     # a schedule no synchronous context can produce: worker 1 of 3 is still busy (45 s on its first item) long after the
     # last-created worker has exited; it is the SOURCE of the first pairwise merge, so a parallel_add that starts
     # merging before every worker has finished loses its item (count-min only: keeps the merge rounds short)
-    RR.add("slow1of3", dict(base, mode="c08", n_workers=3, combo=["cms"], slow_worker0=[1, 45.0]), 600)
+    RR.add("slow1of3", dict(base, mode="c08", n_workers=3, combo=["cms"], slow_worker0=[1, 40.0]), 600)
 
     env = pc.Env(ctx)
     import logging
